@@ -1,9 +1,104 @@
 import SR.Drv.Loop
-/-! Driver commands of the Obs worker (coverage-gap closing, see DESIGN §13c). -/
+import SR.Drv.Chk
+import SR.Checker.Report
+/-! Driver commands of the Obs worker (coverage-gap closing, see DESIGN §13c): the text of `Checker::report` /
+`Checker::join_and_report` with `WriteReporter`.
+
+* `report <strat> g props names cfg`   the machine (`runSingle`, exactly as `chk` / `helpers` of Drv/Chk.lean) is run, the
+                                        text is `Report.reportText` of its final state;
+* `report-text g props names (S U D) ((i (states)) ..)`   the text as a function of what the checker exposes;
+* `o-report ..`                         the laws of Props/Report.lean evaluated on the implementation's parsed text;
+* `sim ..`                              forwarded to Drv/Chk.lean (simulation with initial states outside the boundary). -/
 namespace SR.Drv.Obs
-open SR
+open SR SR.Checker SR.Checker.Report
+
+def names? (e : SExp) : Option (List String) := e.listOf? SExp.str?
+
+/-- `discoveries()` of a machine state / of the implementation: fingerprint paths rebuilt on the graph (states are
+    their own fingerprints) -/
+def textOf (g : Graph) (ps : List GProp) (names : List String) (c : Counts) (disc : List (Nat × List Nat)) : String :=
+  match rebuild g.toSys id disc with
+  | none => "panic"
+  | some d => reportText id names (ps.map GProp.toProp) c d
+
+/-- one parsed `Discovered` block of the implementation's text -/
+structure Block where
+  name : String
+  cls : String
+  k : Nat
+  acts : List Nat
+  states : List Nat
+
+def Block.ofSExp? : SExp → Option Block
+  | .list [.atom name, .atom cls, k, acts, states] => do
+    let k ← k.nat?; let acts ← acts.nats?; let states ← states.nats?
+    pure { name, cls, k, acts, states }
+  | _ => none
+
+def ascending : List String → Bool
+  | a :: b :: r => decide (a < b) && ascending (b :: r)
+  | _ => true
+
+/-- the states and actions are an execution of the graph from an initial state (boundaries play no role in path.rs) -/
+def isExec (g : Graph) : List Nat → List Nat → Bool
+  | [_], [] => true
+  | s :: t :: ss, a :: as => ((g.adj.getD s []).getD a none == some t) && isExec g (t :: ss) as
+  | _, _ => false
+
+def triple? : SExp → Option Counts
+  | .list [.atom _, a, b, c] => do pure { states := ← a.nat?, unique := ← b.nat?, depth := ← c.nat? }
+  | _ => none
+
+def oracle (g : Graph) (ps : List GProp) (names : List String) (counts done : Counts) (dnames : List String)
+    (bs : List Block) : List String :=
+  let listed := bs.map (·.name)
+  (if done == counts then [] else ["done-line-counts-differ-from-the-checker's-counts"]) ++
+  (if ascending listed then [] else ["names-not-in-strictly-ascending-order"]) ++
+  (if listed.all dnames.contains && dnames.all listed.contains then [] else ["listed-names-are-not-the-discovery-names"]) ++
+  bs.flatMap fun b =>
+    (match names.idxOf? b.name with
+     | none => [s!"unknown-name-{b.name}"]
+     | some i =>
+       match ps[i]? with
+       | none => [s!"unknown-name-{b.name}"]
+       | some p =>
+         if p.exp == .sometimes then
+           (if b.cls == "example" then []
+            else if b.cls == "counterexample" then [s!"sometimes-property-reported-as-counterexample-{b.name}"]
+            else [s!"classification-{b.name}"])
+         else (if b.cls == "counterexample" then [] else [s!"failure-not-reported-as-counterexample-{b.name}"])) ++
+    (if b.k == b.acts.length && b.states.length == b.k + 1 then [] else [s!"path-header-count-{b.name}"]) ++
+    (if (b.states.head?.map g.init.contains).getD false && isExec g b.states b.acts then []
+     else [s!"path-is-not-an-execution-of-the-model-{b.name}"])
 
 def handle : Drv.Handler
+  | "report", [.atom strat, g, ps, names, cfg] => do
+    let g ← Graph.ofSExp? g
+    let ps ← ps.listOf? GProp.ofSExp?
+    let names ← names? names
+    let (cfg, fin) ← Chk.parseCfg cfg
+    let c : Chk.Case := { g, props := ps, cfg, finish := fin }
+    if !decide g.WF then pure "ill-formed-graph" else
+    let d := if strat == "dfs" then Discipline.dfs else if strat == "bfs" then Discipline.bfs else Discipline.ondemand
+    let s := runSingle c.params d (g.fuel ps.length)
+    pure (textOf g ps names { states := s.stateCount, unique := s.gen.length, depth := s.maxDepth } s.disc)
+  | "report-text", [g, ps, names, .list [a, b, c], disc] => do
+    let g ← Graph.ofSExp? g
+    let ps ← ps.listOf? GProp.ofSExp?
+    let names ← names? names
+    let disc ← disc.listOf? (SExp.pairOf? SExp.nat? SExp.nats?)
+    pure (textOf g ps names { states := ← a.nat?, unique := ← b.nat?, depth := ← c.nat? } disc)
+  | "o-report", [g, ps, names, counts, done, dnames, blocks] => do
+    let g ← Graph.ofSExp? g
+    let ps ← ps.listOf? GProp.ofSExp?
+    let names ← names? names
+    let counts ← triple? counts
+    let done ← triple? done
+    let dnames ← names? dnames
+    let bs ← blocks.listOf? Block.ofSExp?
+    let errs := oracle g ps names counts done dnames bs
+    pure (if errs.isEmpty then "ok" else " ".intercalate errs)
+  | "sim", args => Chk.handle "sim" args
   | _, _ => none
 
 end SR.Drv.Obs
